@@ -455,6 +455,7 @@ pub struct C19Case {
 
 pub struct C19 {
     pub cfg: GenCfg,
+    pub name: &'static str,
 }
 
 fn map_res(r: Res, m: &[usize]) -> Res {
@@ -566,7 +567,7 @@ pub fn layouts_of(plan: &Plan, lane: usize) -> Result<(Built, LayoutSet), Fail> 
 impl Prop for C19 {
     type Case = C19Case;
     fn name(&self) -> &'static str {
-        "c19-metamorphic"
+        self.name
     }
     fn property(&self) -> &'static str {
         "C19"
